@@ -3,7 +3,8 @@
 (*   [case |-> [g, members, masks, rtype, norder],                                                       *)
 (*    got  |-> [runs  |-> << [src, m (index into masks), npoly, nfeat, polys, tainted, crash, err] >>,   *)
 (*              annot |-> << Member.Orientation after annotate.Relations >>, annerr,                     *)
-(*              pipe  |-> the run that converts the relation as annotated by annotate.Relations] ]       *)
+(*              pipe  |-> the run that converts the relation as annotated by annotate.Relations,         *)
+(*              vers  |-> << per relation version of case.vers: [annot, pipe] >>, verr] ]                *)
 (* runs: separate node objects x every mask of the case, annotated way nodes x masks 1 (none) and 2 (all).  *)
 (* Verdict clauses (the listed property):  RingsRecovered for every run, SameForBothCoordinateSources,   *)
 (* SameWithOrWithoutOrientation, OrientationAnnotated.  Additionally the exact result predicted by the   *)
@@ -28,6 +29,12 @@ CaseOK(c) ==
      /\ \A r \in 1 .. Len(c.g) : c.g[r].n >= 3
      /\ Cardinality(edges) = total /\ total = ringEdges
      /\ \A k \in 1 .. Len(c.masks) : Len(c.masks[k]) = Len(ms)
+     /\ \A k \in 1 .. Len(c.vers) : Len(c.vers[k]) = Len(ms)
+
+\* the member ways as they are at relation version v
+VersMembers(c, v) == [i \in 1 .. Len(c.members) |->
+   IF c.vers[v][i] THEN [role |-> c.members[i].role, nodes |-> Reverse(c.members[i].nodes), dir |-> 0 - c.members[i].dir]
+   ELSE c.members[i]]
 
 Clauses(ln) ==
   LET c == ln.case
@@ -44,6 +51,14 @@ Clauses(ln) ==
           p \in {p \in RunIdx(ln) \X RunIdx(ln) : runs[p[1]].src = runs[p[2]].src /\ none(p[1]) /\ geom[p[1]] # geom[p[2]]}
                 \cup {p \in RunIdx(ln) \X {0} : none(p[1]) /\ runs[p[1]].src = ln.got.pipe.src /\ geom[p[1]] # pgeom}}
   \cup {"OrientationAnnotated" : x \in {1} \ {y \in {1} : ln.got.annerr = "" /\ OrientationAnnotated(c.g, c.members, ln.got.annot)}}
+  \* a history of the relation (identical member lists, member ways reversed in between) annotated in one call:
+  \* every version's members carry the direction of the way version current at that relation version, and every
+  \* annotated version converts to the original rings
+  \cup {"OrientationAnnotated(relation version)" :
+          v \in {v \in 1 .. Len(c.vers) : ~(ln.got.verr = "" /\ Len(ln.got.vers) = Len(c.vers)
+                                            /\ OrientationAnnotated(c.g, VersMembers(c, v), ln.got.vers[v].annot))}}
+  \cup {"RingsRecovered(annotated relation version)" :
+          v \in {v \in 1 .. Len(ln.got.vers) : ~RingsRecovered(c.g, Res(ln.got.vers[v].pipe))}}
 
 \* exact prediction by the Model
 Predicted(c, src, mask) == RunModel([g |-> c.g, members |-> c.members, mask |-> mask, src |-> src, task |-> "convert"])
@@ -56,6 +71,8 @@ Divergences(ln) ==
   \cup {<<"pipe">> : x \in {1} \ {y \in {1} : Matches(ln.got.pipe, Predicted(c, "waynodes", AllMask(n)))}}
   \cup {<<"annot">> : x \in {1} \ {y \in {1} :
             ln.got.annot = RunModel([g |-> c.g, members |-> c.members, mask |-> NoneMask(n), src |-> "waynodes", task |-> "annotate"]).annot}}
+  \cup {<<"version", v>> : v \in {v \in 1 .. Len(ln.got.vers) : v <= Len(c.vers) /\ c.vers[v] # NoneMask(n) /\
+            ln.got.vers[v].annot # RunModel([g |-> c.g, members |-> VersMembers(c, v), mask |-> NoneMask(n), src |-> "waynodes", task |-> "annotate"]).annot}}
 
 CONSTANT CheckModel     \* TRUE: also compare with the Model's exact prediction
 
